@@ -1,0 +1,124 @@
+//go:build verif
+
+// Contracts for the deductive verifier under /verif (govc).  This file holds
+// nothing but comments: with the build tag off it does not exist for the
+// compiler, and with the tag on it declares nothing.  Lines that start with
+// "//@" are read by govc; the grammar is in /verif/DESIGN.md, appendix D.
+
+package commonmark
+
+// ---------------------------------------------------------------------------
+// Byte classes (CommonMark 0.30 section 2.1)
+// ---------------------------------------------------------------------------
+
+//@ spec IsWS(c int) bool = c == ' ' || c == '\t'
+//@ spec IsEOL(c int) bool = c == '\n' || c == '\r'
+//@ spec IsSpaceTabEOL(c int) bool = c == 0x20 || c == 0x09 || c == 0x0A || c == 0x0D
+//@ spec IsLetter(c int) bool = (c >= 'A' && c <= 'Z') || (c >= 'a' && c <= 'z')
+//@ spec IsDigit(c int) bool = c >= '0' && c <= '9'
+//@ spec IsAlnum(c int) bool = IsLetter(c) || IsDigit(c)
+//@ spec IsHexDigit(c int) bool = IsDigit(c) || (c >= 'a' && c <= 'f') || (c >= 'A' && c <= 'F')
+//@ -- the 32 characters !"#$%&'()*+,-./:;<=>?@[\]^_`{|}~
+//@ spec IsPunct(c int) bool = c == 0x21 || c == 0x22 || c == 0x23 || c == 0x24 || c == 0x25 || c == 0x26 || c == 0x27
+//@    || c == 0x28 || c == 0x29 || c == 0x2A || c == 0x2B || c == 0x2C || c == 0x2D || c == 0x2E || c == 0x2F
+//@    || c == 0x3A || c == 0x3B || c == 0x3C || c == 0x3D || c == 0x3E || c == 0x3F || c == 0x40
+//@    || c == 0x5B || c == 0x5C || c == 0x5D || c == 0x5E || c == 0x5F || c == 0x60
+//@    || c == 0x7B || c == 0x7C || c == 0x7D || c == 0x7E
+//@ spec IsControl(c int) bool = (c >= 0 && c <= 0x1F) || c == 0x7F
+
+//@ func isSpaceTabOrLineEnding
+//@   ensures[equiv] result <==> IsSpaceTabEOL(c)
+//@   serves C15, C04
+
+//@ func isASCIILetter
+//@   ensures[equiv] result <==> IsLetter(c)
+//@   serves C15, C04
+
+//@ func isASCIIDigit
+//@   ensures[equiv] result <==> IsDigit(c)
+//@   serves C15, C04
+
+//@ func isASCIIPunctuation
+//@   ensures[equiv] result <==> IsPunct(c)
+//@   serves C15, C04
+
+//@ func isASCIIControl
+//@   ensures[equiv] result <==> IsControl(c)
+//@   serves C15, C04
+
+//@ func isHex
+//@   ensures[equiv] result <==> IsHexDigit(c)
+//@   serves C15, C04, C07
+
+// ---------------------------------------------------------------------------
+// Line counting (C01): LE(s,a,b) = number of line endings that *start* in
+// s[a:b), where CRLF counts once and a CR that is the last byte of s counts.
+// ---------------------------------------------------------------------------
+
+//@ spec EndsLine(s []byte, k int) bool = s[k] == '\n' || (s[k] == '\r' && (k+1 >= len(s) || s[k+1] != '\n'))
+//@ spec LE(s []byte, a int, b int) int = b <= a ? 0 : LE(s, a, b-1) + (EndsLine(s, b-1) ? 1 : 0)
+
+//@ func lineCount
+//@   ensures[count] result == LE(text, 0, len(text))
+//@   loop 0: invariant[count] count == LE(text, 0, i)
+//@   loop 0: invariant[nonneg] 0 <= count && count <= i
+//@   serves C01, C04
+
+// ---------------------------------------------------------------------------
+// Lines.  A recogniser is handed one line: end-of-line bytes occur only as a
+// final "\n", "\r" or "\r\n" (what readline produces).  Body(s) is s without
+// that ending.
+// ---------------------------------------------------------------------------
+
+//@ spec BodyLen(s []byte) int = (len(s) >= 2 && s[len(s)-2] == '\r' && s[len(s)-1] == '\n') ? len(s)-2
+//@    : ((len(s) >= 1 && IsEOL(s[len(s)-1])) ? len(s)-1 : len(s))
+//@ spec LineShape(s []byte) bool = forall k in [0, BodyLen(s)): !IsEOL(s[k])
+
+//@ spec CountC(s []byte, c int, a int, b int) int = b <= a ? 0 : CountC(s, c, a, b-1) + (s[b-1] == c ? 1 : 0)
+//@ spec LastC(s []byte, c int, b int) int = b <= 0 ? 0 : (s[b-1] == c ? b : LastC(s, c, b-1))
+
+//@ lemma CountC_bounds(s []byte, c int, a int, b int)
+//@   ensures 0 <= CountC(s, c, a, b) && (a <= b ==> CountC(s, c, a, b) <= b - a)
+//@   induction b from a
+//@   trigger CountC(s, c, a, b)
+
+//@ lemma CountC_zero(s []byte, c int, a int, b int)
+//@   requires forall k in [a, b): s[k] != c
+//@   ensures CountC(s, c, a, b) == 0
+//@   induction b from a
+//@   trigger CountC(s, c, a, b)
+
+//@ lemma LastC_bounds(s []byte, c int, b int)
+//@   ensures 0 <= LastC(s, c, b) && (b >= 0 ==> LastC(s, c, b) <= b)
+//@   ensures LastC(s, c, b) > 0 ==> s[LastC(s, c, b) - 1] == c
+//@   induction b from 0
+//@   trigger LastC(s, c, b)
+
+//@ lemma CountC_le_LastC(s []byte, c int, b int)
+//@   ensures CountC(s, c, 0, b) <= LastC(s, c, b)
+//@   induction b from 0
+//@   trigger LastC(s, c, b)
+
+// ---------------------------------------------------------------------------
+// Thematic break (CommonMark 0.30 section 4.1): a line consisting of three or
+// more matching -, _ or * characters, each followed optionally by any number
+// of spaces or tabs.  (Leading indentation is removed by the caller.)
+// ---------------------------------------------------------------------------
+
+//@ spec OnlyCW(s []byte, c int, a int, b int) bool = forall k in [a, b): s[k] == c || IsWS(s[k])
+//@ spec TB(s []byte, c int) bool = OnlyCW(s, c, 0, BodyLen(s)) && CountC(s, c, 0, BodyLen(s)) >= 3
+//@ spec IsTBChar(c int) bool = c == '-' || c == '_' || c == '*'
+
+//@ func parseThematicBreak
+//@   requires LineShape(line)
+//@   ensures[sound] end >= 0 ==> ((TB(line, '-') && end == LastC(line, '-', BodyLen(line)))
+//@       || (TB(line, '_') && end == LastC(line, '_', BodyLen(line)))
+//@       || (TB(line, '*') && end == LastC(line, '*', BodyLen(line))))
+//@   ensures[complete] (TB(line, '-') || TB(line, '_') || TB(line, '*')) ==> end >= 0
+//@   ensures[range] end == -1 || (3 <= end && end <= len(line))
+//@   loop 0: invariant[n] 0 <= n && n <= i
+//@   loop 0: invariant[none] n == 0 ==> (end == 0 && forall k in [0, i): IsSpaceTabEOL(line[k]))
+//@   loop 0: invariant[some] n > 0 ==> (IsTBChar(want) && n == CountC(line, want, 0, i) && end == LastC(line, want, i)
+//@       && 1 <= end && end <= i && line[end-1] == want
+//@       && forall k in [0, i): line[k] == want || IsSpaceTabEOL(line[k]))
+//@   serves C15, C04
